@@ -10,6 +10,12 @@ import common
 from common import Violation
 
 ENGINE = "mpix"
+
+
+def common_exit2(msg):
+    """harness / driver problem: never a VIOLATION (exit code 2)"""
+    common.log(msg)
+    return SystemExit(2)
 NP = 17            # world size of the thorough grid; the quick grid (sizes <= 8) runs in a world of 8: see world()
 SELECTABLE = ["bcast", "reduce", "allreduce", "allgather", "allgatherv", "alltoall", "alltoallv", "gather", "scatter",
               "reduce_scatter", "barrier"]
@@ -93,7 +99,7 @@ def list_cases(binary, d, coll, grid):
                           "nontrivial": f[7]})
     if not cases:
         common.log(r.stdout[-2000:], r.stderr[-2000:])
-        raise SystemExit("C29: interpreter produced no case list for %s (exit 2)" % coll)
+        raise common_exit2("C29: interpreter produced no case list for %s (exit 2)" % coll)
     return cases
 
 
@@ -153,7 +159,7 @@ def run_ranges(binary, d, coll, algo, layout, grid, ranges, timeout, tag, nranks
         elif line.startswith("DONE "):
             res.done += 1
         elif line.startswith("HARNESS-ERROR"):
-            raise SystemExit("C29: " + line + " (exit 2)")
+            raise common_exit2("C29: " + line + " (exit 2)")
     W = nranks or world(grid)
     raw = open(score, "rb").read(384)
     cur = struct.unpack("32i", raw[:128])[:W]
@@ -353,7 +359,7 @@ def run_piece(task):
             break
         guard += 1
         if guard > size0 + 10:
-            raise SystemExit("C29: driver does not make progress on %s/%s (exit 2)" % (coll, algo))
+            raise common_exit2("C29: driver does not make progress on %s/%s (exit 2)" % (coll, algo))
         size = sum(b - a for a, b in pending)
         res = go(pending, slow * timeout_for(size, algo))
         if os.environ.get("C29_DEBUG"):
@@ -411,7 +417,7 @@ def run_piece(task):
             if all(r.complete for r in alone.values()):
                 slow *= 3
                 if slow > 30:
-                    raise SystemExit("C29: %s/%s times out in a batch but never alone (exit 2)" % (coll, algo))
+                    raise common_exit2("C29: %s/%s times out in a batch but never alone (exit 2)" % (coll, algo))
                 pending = subtract(pending, limit, -1)
                 continue
         culprit = None
@@ -523,10 +529,10 @@ def _run(ctx, binary, d):
     algos = algorithms()
     missing = [c for c in SELECTABLE if c not in algos]
     if missing or sum(len(v) for v in algos.values()) < 50:
-        raise SystemExit("C29: could not list the algorithms of %s from --help-coll (exit 2)" % missing)
+        raise common_exit2("C29: could not list the algorithms of %s from --help-coll (exit 2)" % missing)
     unknown = [c for c in algos if c not in SELECTABLE]
     if unknown:
-        raise SystemExit("C29: library lists collectives the interpreter does not know: %s (exit 2)" % unknown)
+        raise common_exit2("C29: library lists collectives the interpreter does not know: %s (exit 2)" % unknown)
     shards = [(c, a, l) for c, a in shard_list(algos) for l in LAYOUTS]
     colls = sorted(set(s[0] for s in shards))
     case_lists = dict(zip(colls, common.pmap(_list_one, [(binary, d, c, grid) for c in colls])))
@@ -626,7 +632,7 @@ def summarize(ctx, acc, shards, case_lists, grid, algos, groups, conf):
         covered = sum(p["completed"] for p in a["pieces"]) + ncut
         ncut += nblocked
         if covered != len(cases):
-            raise SystemExit("C29: shard %s covered %d of %d cases (driver bug, exit 2)" % (shard, covered, len(cases)))
+            raise common_exit2("C29: shard %s covered %d of %d cases (driver bug, exit 2)" % (shard, covered, len(cases)))
         evaluations += len(cases) - ncut
         # conservative: the cut cases of a shard are subtracted from its non-trivial count as if all were non-trivial
         nontrivial += max(0, sum(1 for c in cases if c["nontrivial"] and c["id"] not in excluded) - ncut)
